@@ -63,6 +63,40 @@ def pandas_cases(run, label, queries, recsA, maxA):
     run.notes.setdefault('cases_per_family', {})[label] = n
 
 
+def pandas_missing_values(run):
+    """Dataframes with missing values (None and NaN cells): whatever the query does (select, update, a failing one), the caller's frame keeps
+    its cells (None stays None, NaN stays NaN), dtypes and labels.  Only the source is looked at here (queries over missing values are outside C01-C05)."""
+    import math
+    import pandas as pd
+    mods = impl.load()
+    from rbql import rbql_pandas
+
+    def cellsig(df):
+        return [[('None' if v is None else 'NaN' if (isinstance(v, float) and math.isnan(v)) else repr(v)) for v in row] for row in df.values.tolist()], [str(t) for t in df.dtypes], [(type(c).__name__, c) for c in df.columns]
+    frames = [lambda: pd.DataFrame([['a', None], ['b', 'y']], columns=['x1', 'x2']),
+              lambda: pd.DataFrame([['a', float('nan')], ['b', 'y']], columns=['x1', 'x2']),
+              lambda: pd.DataFrame([[1.5, float('nan')], [2.5, 3.0]], columns=['x1', 'x2']),
+              lambda: pd.DataFrame([[None, 'p'], [float('nan'), 'q']], columns=['x1', 'x2'])]
+    queries = ['select a1', 'select *', 'select a2, a1 order by a1', 'update set a2 = "z"', 'update set a1 = a2 where NR == 1', 'select a1 + a2', 'select a1 where a2 is None', 'select top 1 a.x2']
+    for k, mk in enumerate(frames):
+        for q in queries:
+            for as_join in (False, True):
+                df = mk()
+                before = cellsig(df)
+                try:
+                    if as_join:
+                        rbql_pandas.query_dataframe('select a1, b2 left join B on a1 == b1', pd.DataFrame([['a', 'k']], columns=['u1', 'u2']), join_dataframe=df)
+                    else:
+                        rbql_pandas.query_dataframe(q, df)
+                except Exception:  # noqa -- the outcome is not the subject here
+                    pass
+                run.traces += 1
+                run.count(['pandas-missing', k, q, as_join], nontrivial=True)
+                if cellsig(df) != before:
+                    run.violation({'impl': 'py', 'backend': 'pandas', 'what': 'dataframe with missing values modified (cells, dtypes or labels)', 'frame': k, 'role': 'join' if as_join else 'input', 'query': q,
+                                   'got': cellsig(df)[:2], 'want': before[:2]}, {'kind': 'pandas_missing', 'frame': k})
+
+
 IDENT_CLASSES = {'letter': 'T', 'digit': '1', 'underscore': '_', 'semicolon': ';', 'dash': '-', 'quote': '"', 'paren': '(', 'space': ' ', 'star': '*', 'newline': '\n'}
 
 
@@ -169,6 +203,7 @@ def check(run):
     ec.run_family_js(run, 'C06-js-update-join', 'Q_C05join', 'R_2x2', recsB='R_2x2', maxA=2, maxB=2)
     ec.run_family_js(run, 'C06-js-select', 'Q_C01a', 'R_2x2', maxA=2)
     ec.run_family_js(run, 'C06-js-failing', 'Q_C14js', 'R_poison', maxA=2)
+    pandas_missing_values(run)
     pandas_cases(run, 'C06-pandas-update', 'Q_C05', 'R_2x2', 2)
     pandas_cases(run, 'C06-pandas-select', 'Q_C01a', 'R_2x2', 2 if not quick else 1)
     sqlite_idents(run)
